@@ -51,9 +51,9 @@ var c15Scope = []struct{ pkg, fn string }{
 
 // c15Exceptions: obligation key prefix -> reason.
 var c15Exceptions = map[string]string{
-	"P3 daemon.getPodResources: resObj.(daemon.PodResources)": "the value comes from the resource database, whose deserializer (InitResourceDB) only ever produces daemon.PodResources",
-	"P4 pkg/k8s.podNetworkType: panic":                         "unknown daemon mode: a start-up argument validated by the daemon command, not user input per pod",
-	"P4 plugin/terway.getDatePath: panic":                      "unsupported IP type: the value is produced by the daemon (C12.R3 shows the switch covers every declared type), not by the user",
+	"P3 daemon.getPodResources: resObj.(daemon.PodResources)":                                        "the value comes from the resource database, whose deserializer (InitResourceDB) only ever produces daemon.PodResources",
+	"P4 pkg/k8s.podNetworkType: panic":                                                               "unknown daemon mode: a start-up argument validated by the daemon command, not user input per pod",
+	"P4 plugin/terway.getDatePath: panic":                                                            "unsupported IP type: the value is produced by the daemon (C12.R3 shows the switch covers every declared type), not by the user",
 	"P3 cmd/terway-cli.storeRuntimeConfig: plugin.Path(\"network_policy_provider\").Data().(string)": "reads the file mergeConfigList just wrote: mergeConfigList rejects a non-string network_policy_provider before writing",
 	"P3 cmd/terway-cli.storeRuntimeConfig: plugin.Path(\"eniip_virtual_type\").Data().(string)":      "reads the file mergeConfigList just wrote: eniip_virtual_type is either deleted or one of the declared string constants there (C20.R2)",
 }
